@@ -117,8 +117,60 @@ class Handles:
         return None
 
     # ---- H3: method call on a handle that may be None -----------------------------------
+    def enclosing_try(self, e, names=("AttributeError",)):
+        """The innermost try statement whose body holds the construct of event e (or a call site on its stack) and whose handlers catch one of
+        `names` (by that name, a base class of it, or bare); None when the exception leaves the entry point."""
+        import ast
+        bases = set(names) | {"Exception", "BaseException"}
+        sites = [(e.file, e.line)] + [(f, l) for f, l, _ in reversed(e.stack)]
+        for f, l in sites:
+            mod = next((m for m in self.a.prog.modules.values() if m.path == f or m.path.endswith("/" + f) or f.endswith("/" + m.path)), None)
+            if mod is None:
+                continue
+            best = None
+            for t in ast.walk(mod.tree):
+                if not isinstance(t, ast.Try) or not t.body or not (t.body[0].lineno <= l <= (t.body[-1].end_lineno or t.body[-1].lineno)):
+                    continue
+                for h in t.handlers:
+                    ts = [] if h.type is None else (list(h.type.elts) if isinstance(h.type, ast.Tuple) else [h.type])
+                    nm = {x.id if isinstance(x, ast.Name) else (x.attr if isinstance(x, ast.Attribute) else None) for x in ts}
+                    if h.type is None or (nm & bases):
+                        if best is None or t.lineno >= best[0].lineno:
+                            best = (t, l)
+            if best is not None:
+                return best
+        return None
+
+    @staticmethod
+    def abandons(trynode, line):
+        """Does an exception raised at `line` inside this try skip further handle clean-up: the rest of a loop it is in, or later
+        cancel()/stop() calls of the try body?"""
+        import ast
+        for s in trynode.body:
+            for x in ast.walk(s):
+                if isinstance(x, (ast.For, ast.While)) and x.lineno <= line <= (x.end_lineno or x.lineno):
+                    return "the loop it is in is abandoned at the first such entry"
+        for s in trynode.body:
+            if s.lineno > line:
+                for x in ast.walk(s):
+                    if isinstance(x, ast.Call) and isinstance(x.func, ast.Attribute) and x.func.attr in ("cancel", "stop"):
+                        return "the clean-up that follows it in the try body is skipped"
+        return None
+
     def none_deref(self):
-        """Yields (tr, event, location, reason) for unguarded cancel/stop on a possibly-None handle."""
+        """Yields (tr, event, location, reason) for unguarded cancel/stop on a possibly-None handle whose AttributeError is not caught."""
+        for tr, e, loc, reason in self._none_deref():
+            if self.enclosing_try(e) is None:
+                yield tr, e, loc, reason
+
+    def none_deref_caught(self):
+        """The same hazard where a try/except catches the AttributeError: yields (tr, event, location, reason, what is skipped or None)."""
+        for tr, e, loc, reason in self._none_deref():
+            t = self.enclosing_try(e)
+            if t is not None:
+                yield tr, e, loc, reason, self.abandons(*t)
+
+    def _none_deref(self):
         ns = self.none_stores()
         lc = self.lc
         for tr in contexts(self.cat):
